@@ -1015,8 +1015,12 @@ def parse_primary_expr(lexer, unary_minus=False):
         result = NodeLiteral(ValueString(token.value), token.pos)
         result = deref_or_invoke(lexer, result)
     elif token.type == "int":
+        try:
+            value = int(token.value)
+        except ValueError:
+            raise CklSyntaxError("Int literal too long", token.pos)
         result = NodeLiteral(
-            ValueInt(int(token.value) * (-1 if unary_minus else 1)),
+            ValueInt(value * (-1 if unary_minus else 1)),
             token.pos,
         )
         result = invoke(lexer, result)
@@ -1034,7 +1038,7 @@ def parse_primary_expr(lexer, unary_minus=False):
     elif token.type == "pattern":
         try:
             pattern = ValuePattern(token.value[2:-2])
-        except (re.error, OverflowError, RecursionError) as e:
+        except (re.error, OverflowError, RecursionError, ValueError) as e:
             raise CklSyntaxError(
                 f"Invalid pattern {token.value}: {e}", token.pos
             )
